@@ -120,6 +120,8 @@ package commitment
 
 //@ func VerifyExecutorCommitment
 //@   props C11
+//@   ensures err == nil && old(commit.Header.Failure) != FailureNone ==> old(commit.NodeID) != old(commit.Header.SchedulerID)
+//@   note a failure indication - WHATEVER its failure code - by the scheduler of the proposal itself is never admitted: admitted, it becomes the scheduler's commitment of the round (with no vote), and the other workers' votes for the real result would finalize a round on a commitment that carries no state root (seed C11_i dispatched on the two named failure codes, so FailureStateUnavailable fell through both arms)
 //@   requires blk != nil && rt != nil && commit != nil
 //@   precall commitment\.ComputeResultsHeader\)\.IsParentOf$ :: argIs(0, &blk.Header) && GCommitVerifyOK > old(GCommitVerifyOK)
 //@   ensures err == nil ==> GParentOfTrue > old(GParentOfTrue) && GCommitVerifyOK > old(GCommitVerifyOK)
